@@ -59,6 +59,12 @@ def zip3 {α : Type} : List α → List α → List α → List (Tri α)
 def zip3? {α : Type} (as bs cs : List α) : Option (List (Tri α)) :=
   if as.length = bs.length ∧ bs.length = cs.length then some (zip3 as bs cs) else none
 
+/-- `numpy.dstack((a, b, c))` of three gathered operands; a failed gather fails the whole -/
+def dstack3 {α : Type} (a b c : Option (List α)) : Option (List (Tri α)) :=
+  match a, b, c with
+  | some a, some b, some c => zip3? a b c
+  | _, _, _ => none
+
 /-! ### strips and fans (`_extendFromStrip`, `_extendFromFan`) -/
 
 /-- `cw_ = numpy.array([index[0:-2:2], index[1:-1:2], index[2::2]])` -/
@@ -109,6 +115,11 @@ def fanFrom {α : Type} (a : α) : List α → List (Tri α)
 def fanSpec {α : Type} : List α → List (Tri α)
   | [] => []
   | a :: l => fanFrom a l
+
+/-- the rows of a primitive cut into consecutive polygons of the given corner counts -/
+def splitPolys {α : Type} : List α → List Nat → List (List α)
+  | _, [] => []
+  | rows, c :: cs => rows.take c :: splitPolys (rows.drop c) cs
 
 /-! ### `TriangleSet.load` for `<tristrips>` / `<trifans>` -/
 
@@ -195,10 +206,8 @@ def triangulate {α : Type} (rows : List α) (vc : List Nat) : Option (List (Tri
     | some offsel =>
       if rows.isEmpty then some []
       else
-        match gather rows (List.zipWith (· - ·) sel offsel), gather rows (sel.map (· + 1)),
-              gather rows (sel.map (· + 2)) with
-        | some a, some b, some c => zip3? a b c
-        | _, _, _ => none
+        dstack3 (gather rows (List.zipWith (· - ·) sel offsel)) (gather rows (sel.map (· + 1)))
+          (gather rows (sel.map (· + 2)))
 
 /-- `Polygon.triangles()`: `for i in range(npts - 2): (x[0], x[i + 1], x[i + 2])` -/
 def polygonTriangles {α : Type} (xs : List α) : Option (List (Tri α)) :=
